@@ -94,8 +94,9 @@ class EmptyLenExc(KeyboardInterrupt):
 NoModuleExc = type("NoModuleExc", (Exception,), {"__module__": None})
 
 
-class ExtRaise(Exception):
-    pass
+class ExtRaise(OSError):
+    """its extractor fails; a base class (OSError -> EnvironmentError) has a working extractor of its own (Eliot's errno one), which
+    must NOT be consulted instead: the nearest registered class decides"""
 
 
 class ExtRaiseInner(ExtRaise):
@@ -140,10 +141,27 @@ class DestErrBadStr(Exception):
         raise ValueError("no text")
 
 
+class ExtCross(Exception):
+    """raised by ExtRaise's extractor; its own extractor raises an ExtRaise in turn (two failing extractors naming each other)"""
+
+
 def _raising_extractor(e):
-    if len(str(e)) % 2:
+    n = len(str(e)) % 4
+    if n == 0:
+        return None             # not a dictionary at all: as good as a failure (nothing to add), never an error of the logging call
+    if n == 1:
         raise ZeroDivisionError("extractor failed")
+    if n == 2:
+        raise ExtCross("the extractor fails with an exception whose own extractor fails with an ExtRaise")
     raise ExtRaiseInner("the extractor fails with an exception it is itself registered for")
+
+
+def _cross_extractor(e):
+    text = "extractor of ExtCross fails"
+    raise ExtRaise(text + "." * ((2 - len(text)) % 4))      # (a text for which ExtRaise's extractor raises ExtCross again)
+
+
+register_exception_extractor(ExtCross, _cross_extractor)
 
 
 register_exception_extractor(ExtRaise, _raising_extractor)
@@ -337,8 +355,16 @@ class Env:
         if self.recording:
             self.ev.append({"e": "ser", "fail": fail})
         if fail:
-            if (n + self.wit) % 3 == 0:
+            k = (n + self.wit) % 5
+            if k == 0:
                 raise SerBaseErr("serializer %d fails with a non-Exception" % n)
+            if k == 1:
+                raise StopIteration("serializer %d ran out" % n)      # e.g. next(iter(x)) on an empty input: an exception like any other
+            if k in (2, 3):
+                # the very same exception INSTANCE as the last time (a cached error, a failed Future's result()): reported again
+                if getattr(self, "cached_ser_err", None) is None:
+                    self.cached_ser_err = SerErr("serializer fails with a cached exception instance")
+                raise self.cached_ser_err
             raise SerErr("serializer %d fails" % n)
         return {"ser": v}
 
@@ -370,8 +396,12 @@ class Env:
         if o == "x3":
             return self.M3("instance of M3(E0, D2)")
         if o == "extraise":
-            return ExtRaise("extractor will fail" + "!" * (self.wit % 2))
+            return ExtRaise("extractor will fail" + "!" * (self.wit % 4))
         raise HarnessError("unknown outcome %r" % (o,))
+
+
+def X_PRISTINE_COPY(name):
+    return _copy.deepcopy(VAL[name])
 
 
 def _init_pristine():
@@ -585,8 +615,16 @@ class Runner:
                 else:
                     # every public way of logging a message in the current context
                     from eliot import Message
-                    style = env.style % 5
-                    if style == 0:
+                    style = env.style % 6
+                    if style == 5:
+                        # the public constructor, handed a dictionary its owner goes on using before the message is written
+                        d = {"message_type": op["ty"], "mf": X_PRISTINE_COPY("mf")}
+                        mobj = Message(d)
+                        d["mf"] = "changed after the Message was made"
+                        d["intruder"] = 1
+                        d.pop("message_type")
+                        mobj.write()
+                    elif style == 0:
                         Message.log(message_type=op["ty"], mf=VAL["mf"])
                     elif style == 1:
                         mobj = Message.new(message_type=op["ty"]).bind(mf=VAL["mf"])
@@ -706,11 +744,24 @@ class Runner:
                 from eliot import preserve_context
                 sentinel = object()
 
-                def f(a, k=None, _s=sentinel):
+                def f(a, k=None, _s=sentinel, **kw):
                     log_message(message_type="m", mf=VAL["mf"])
+                    if kw and kw != {"task_id": "a keyword of the application", "f": 5}:
+                        return ("keywords were changed", kw)
                     return (_s, a, k)
-                pres = preserve_context(f)
-                if current_action() is None and pres is not f:
+                # the callable handed over is a plain function, a functools.partial or an object with __call__ (no __qualname__ ...)
+                shape = (env.wit + len(env.ids)) % 3
+                target = f
+                if shape == 1:
+                    import functools
+                    target = functools.partial(f)
+                elif shape == 2:
+                    class _Callable(object):
+                        def __call__(self, *a, **kw):
+                            return f(*a, **kw)
+                    target = _Callable()
+                pres = preserve_context(target)
+                if current_action() is None and pres is not target:
                     v = "wrongret"
                 env.ids.append([pres, sentinel, current_action() is not None, False])
             elif name == "CallPreserved":
@@ -723,7 +774,11 @@ class Runner:
                 if fresh:
                     env.acts.append(None)          # the continued action lives inside the callable: the program has no handle on it
                 try:
-                    r = pres(arg, k=op["i"])
+                    if (env.wit + op["i"]) % 2:
+                        r = pres(arg, k=op["i"])
+                    else:
+                        # keywords of the application's own, named like things the library uses internally
+                        r = pres(arg, k=op["i"], task_id="a keyword of the application", f=5)
                     if not (isinstance(r, tuple) and r[0] is sentinel and r[1] is arg and r[2] == op["i"]):
                         v = "wrongret"
                 except TooManyCalls:
